@@ -1190,7 +1190,7 @@ type OutsParams struct {
 	Outs    []string // FILEW outputs returned by the top-level pipeline
 	OutName bool     // explicit output names on the pipeline's file outputs
 	Size    int
-	Mode    int  // 0 files, 1 nulls, 2 missing, 3 symlinks, 4 outside the pipestance, 5 relative links (from a sub-directory) to the first output's file, 6 outside the pipestance and named relative to the working directory
+	Mode    int  // 0 files, 1 nulls, 2 missing, 3 symlinks, 4 outside the pipestance, 5 relative links (from a sub-directory) to the first output's file, 6 outside the pipestance and named relative to the working directory, 7 directories named with a trailing slash
 	ProdMap bool // mapped producer: every output becomes an array
 	TopMap  bool // the top-level call itself is mapped
 	Wrap    bool // outputs pass through a sub-pipeline
@@ -1358,6 +1358,18 @@ func OutsFamily(thorough bool) []OutsParams {
 								out = append(out, OutsParams{Outs: set, OutName: on, Size: size, Mode: mode, ProdMap: pm, TopMap: tm, Wrap: wr})
 							}
 						}
+					}
+				}
+			}
+		}
+	}
+	// mode 7: the directory output is named with a trailing slash
+	for _, set := range [][]string{{"d"}, names, {"d", "din"}} {
+		for _, on := range []bool{false, true} {
+			for _, pm := range []bool{false, true} {
+				for _, tm := range []bool{false, true} {
+					for _, wr := range []bool{false, true} {
+						out = append(out, OutsParams{Outs: set, OutName: on, Size: 2, Mode: 7, ProdMap: pm, TopMap: tm, Wrap: wr})
 					}
 				}
 			}
